@@ -287,8 +287,9 @@ class ComposedNode(ConfigNode):
 
             if other.ayns.delete:
                 removed = set()
+                prefix = path
                 def maybe_keep(path, node):
-                    other_node = other.ayns.get_first_not_missing_node(path)
+                    other_node = other.ayns.get_first_not_missing_node(path[len(prefix):])
                     return node.ayns.has_priority_over(other_node)
 
                 self.ayns.filter_nodes(maybe_keep, prefix=path, removed=removed)
